@@ -16,6 +16,9 @@ use serde_json::json;
 pub enum Case {
     Curve { rule: u8, gaps: Vec<u8>, vset: u8 },
     IndexLeft { list: Vec<f64> },
+    /// history independence: look-ups on curve A, then on curve B whose nodes have the same count, first and last
+    /// date but different interior dates (gaps permuted), then on A again - all on one thread
+    Interleave { rule: u8, gaps_a: Vec<u8>, gaps_b: Vec<u8>, python_facing: bool },
 }
 
 pub fn interp_of(rule: usize) -> VerifInterp {
@@ -147,6 +150,36 @@ pub fn check(case: &Case, idx: u64, acc: &mut Acc) {
                 acc.sample(cj);
             }
         }
+        Case::Interleave { rule, gaps_a, gaps_b, python_facing } => {
+            let rule = *rule as usize;
+            let (xa, xb) = (node_times(gaps_a), node_times(gaps_b));
+            let n = xa.len();
+            let ys: Vec<f64> = VSETS[0][..n].to_vec();
+            let ident: Vec<usize> = (0..n).collect();
+            acc.nontrivial();
+            for (step, xs) in [&xa, &xb, &xa, &xb].iter().enumerate() {
+                let qs = queries(xs);
+                let got = if *python_facing { lookup_py(rule, xs, &ys, &ident, &qs) } else { lookup_df(rule, xs, &ys, &ident, &qs) };
+                for (k, q) in qs.iter().enumerate() {
+                    acc.eval();
+                    let i = interval_of(xs, *q);
+                    let want = closed_form::<f64>(rule, xs[0], xs[i], &ys[i], xs[i + 1], &ys[i + 1], *q);
+                    if got[k].1 != i || !close_scaled(got[k].0, want, 1e-12, want.abs()) {
+                        acc.violate(
+                            &format!("after-another-curve/{}", RULES[rule]),
+                            idx,
+                            cj(),
+                            json!({"step": step, "query_ts": q, "want_interval": i, "want": want}),
+                            json!({"interval": got[k].1, "value": got[k].0}),
+                        );
+                        break;
+                    }
+                }
+            }
+            if idx % 61 == 0 {
+                acc.sample(cj);
+            }
+        }
         Case::IndexLeft { list } => {
             let dup = list.windows(2).any(|w| w[0] == w[1]);
             for h in 1..=11 {
@@ -189,9 +222,26 @@ pub fn cases(tier: Tier) -> Vec<Case> {
         for c in 0..combos {
             let mut cc = c;
             let gaps: Vec<u8> = (0..n - 1).map(|_| { let g = (cc % 4) as u8; cc /= 4; g }).collect();
-            for vset in 0..3u8 {
+            for vset in 0..4u8 {
                 for rule in 0..5u8 {
                     out.push(Case::Curve { rule, gaps: gaps.clone(), vset });
+                }
+            }
+        }
+    }
+    // interleaved look-ups: every gap vector with at least two different gaps against each of its other orderings
+    for n in 3..=4usize {
+        let combos = 4usize.pow((n - 1) as u32);
+        for c in 0..combos {
+            let mut cc = c;
+            let ga: Vec<u8> = (0..n - 1).map(|_| { let g = (cc % 4) as u8; cc /= 4; g }).collect();
+            for p in permutations(n - 1) {
+                let gb: Vec<u8> = p.iter().map(|i| ga[*i]).collect();
+                if gb == ga {
+                    continue;
+                }
+                for rule in 0..5u8 {
+                    out.push(Case::Interleave { rule, gaps_a: ga.clone(), gaps_b: gb.clone(), python_facing: (c + rule as usize) % 2 == 0 });
                 }
             }
         }
@@ -223,15 +273,17 @@ pub fn run(ctx: &Ctx, replay_file: Option<String>) -> ! {
     let cs = cases(ctx.tier);
     let acc = explore(&cs, check);
     let meta = Meta::exploration(
-        "curves: 5 rules x node counts 2..5 (6) x every gap vector over {1d, 30d, 365d, 3650d} x 3 value sets \
-         (monotone from 1, non-monotone from 1, first value != 1) x EVERY permutation of the supply order x both \
+        "curves: 5 rules x node counts 2..5 (6) x every gap vector over {1d, 30d, 365d, 3650d} x 4 value sets \
+         (monotone from 1, non-monotone from 1, first value != 1, flat segments) x EVERY permutation of the supply order x both \
          constructors (CurveDF::try_new with the typed interpolator; the Python-facing constructor through the hook); \
          query dates: every node, node +-1 day, quarter/mid/three-quarter points of every interval, 400 days before the \
          first and after the last node. Oracle: interval = (first node >= date) - 1 clamped (also through node_index); \
          value = closed form of the rule on that interval's two nodes (1e-12); a node's own value at a node; between \
          the two node values for linear / log-linear; identical (<= 4 ulp, same interval) for every supply \
          permutation. index_left directly: every non-decreasing list of length 2..9 (11) over {1..5} x every query in \
-         {0.5, 1, ..., 5.5}, f64 and i64. Non-trivial: queries strictly between nodes; lists of length >= 5.",
+         {0.5, 1, ..., 5.5}, f64 and i64. History independence: look-ups on curve A, then on a curve B with the same node count, first and \
+         last date but permuted gaps, then A and B again, on one thread. Non-trivial: queries strictly between nodes; \
+         lists of length >= 5; interleaved pairs.",
         json!({"cases": cs.len(), "max_nodes": ctx.tier.pick(5, 6)}),
     )
     .assume("closed forms in harness/src/curvemodel.rs; node values from three fixed tables");
